@@ -21,7 +21,9 @@ fn auth_host(raw: &[u8]) -> String {
     }
 }
 
-fn run_case(line: &str) -> String {
+type Built = (http::Request<()>, String, String, String);
+
+fn build_req(line: &str) -> Result<Built, String> {
     let f: Vec<&str> = line.split(' ').collect();
     let version = match f[0] {
         "10" => http::Version::HTTP_10,
@@ -41,7 +43,7 @@ fn run_case(line: &str) -> String {
     }
     let mut req = match b.body(()) {
         Ok(r) => r,
-        Err(_) => return "- - - ;; BADREQ".into(),
+        Err(_) => return Err("- - - ;; BADREQ".into()),
     };
     let pre = f.get(4).map(|x| *x == "1").unwrap_or(false);
     let mut sni_dec = "-".to_string();
@@ -63,6 +65,12 @@ fn run_case(line: &str) -> String {
     let hdr_dec = first_host.as_ref().map(|h| auth_host(h)).unwrap_or_else(|| "-".into());
     let uri_dec = req.uri().authority().map(|a| a.host().to_string()).unwrap_or_else(|| "-".into());
 
+    Ok((req, hdr_dec, uri_dec, sni_dec))
+}
+
+/// one or several requests (separated by " || ") through ONE ValidateSNI service value; from the second
+/// request on, every other request goes through a clone of the (already used) service
+fn run_case(line: &str) -> String {
     let seen: Arc<Mutex<Option<Option<bool>>>> = Arc::new(Mutex::new(None));
     let seen2 = seen.clone();
     let inner = tower::service_fn(move |r: http::Request<()>| {
@@ -70,22 +78,37 @@ fn run_case(line: &str) -> String {
         *seen2.lock().unwrap() = Some(v);
         async move { Ok::<_, std::io::Error>(http::Response::new(())) }
     });
-    let res = catch(std::panic::AssertUnwindSafe(move || {
-        let mut svc = ValidateSNI.layer(inner);
-        let rt = tokio::runtime::Builder::new_current_thread().build().unwrap();
-        rt.block_on(svc.call(req))
-    }));
-    let out = match res {
-        Err(_) => "PANIC".to_string(),
-        Ok(Ok(_)) => match seen.lock().unwrap().take() {
-            Some(v) => format!("FWD {}", if v == Some(true) { 1 } else { 0 }),
-            None => "LOST".to_string(),
-        },
-        Ok(Err(SNIMiddlewareError::SNI(ValidateSNIError::InvalidSNI { .. }))) => "REJ Invalid".to_string(),
-        Ok(Err(SNIMiddlewareError::SNI(ValidateSNIError::MissingSNI { .. }))) => "REJ Missing".to_string(),
-        Ok(Err(_)) => "REJ Other".to_string(),
-    };
-    format!("{} {} {} ;; {}", hdr_dec, uri_dec, sni_dec, out)
+    let mut svc = ValidateSNI.layer(inner);
+    let rt = tokio::runtime::Builder::new_current_thread().build().unwrap();
+    let mut outs = Vec::new();
+    for (i, one) in line.split(" || ").enumerate() {
+        let (req, hdr_dec, uri_dec, sni_dec) = match build_req(one) {
+            Ok(b) => b,
+            Err(e) => {
+                outs.push(e);
+                continue;
+            }
+        };
+        *seen.lock().unwrap() = None;
+        let res = if i > 0 && i % 2 == 0 {
+            let mut c = svc.clone();
+            catch(std::panic::AssertUnwindSafe(|| rt.block_on(c.call(req))))
+        } else {
+            catch(std::panic::AssertUnwindSafe(|| rt.block_on(svc.call(req))))
+        };
+        let out = match res {
+            Err(_) => "PANIC".to_string(),
+            Ok(Ok(_)) => match seen.lock().unwrap().take() {
+                Some(v) => format!("FWD {}", if v == Some(true) { 1 } else { 0 }),
+                None => "LOST".to_string(),
+            },
+            Ok(Err(SNIMiddlewareError::SNI(ValidateSNIError::InvalidSNI { .. }))) => "REJ Invalid".to_string(),
+            Ok(Err(SNIMiddlewareError::SNI(ValidateSNIError::MissingSNI { .. }))) => "REJ Missing".to_string(),
+            Ok(Err(_)) => "REJ Other".to_string(),
+        };
+        outs.push(format!("{} {} {} ;; {}", hdr_dec, uri_dec, sni_dec, out));
+    }
+    outs.join(" || ")
 }
 
 fn main() {
